@@ -90,4 +90,5 @@ func checkC05(p *Program, r *Result) {
 	checkOffsetsAndLengths(p, r, isSink)
 	checkFlush(p, r)
 	checkSummaryOffsetsComplete(p, r, isSink)
+	checkWriteRecordCount(p, r)
 }
